@@ -179,6 +179,23 @@ func c10(c *wk.Ctx) {
 }
 
 func c10reconnect(c *wk.Ctx, idx int, r *rand.Rand) {
+	// the clock across the connections of one session: as it is / frozen / stepped back while reconnecting / coarse
+	mode := []string{"native", "frozen", "stepped-back", "coarse"}[idx%4]
+	base := time.Now().UnixNano()
+	var reads, back int64
+	if mode != "native" {
+		utils.SetVerifClock(func() int64 {
+			k := atomic.AddInt64(&reads, 1)
+			switch mode {
+			case "frozen":
+				return base + (k/8)*1e6
+			case "stepped-back":
+				return base + k*1e6 - atomic.LoadInt64(&back)
+			}
+			return (time.Now().UnixNano() / 15600000) * 15600000
+		})
+		defer utils.SetVerifClock(nil)
+	}
 	e, err := newRPCEnv(c, idx, r, envOpts{Handler: func(e *rpcEnv, p pendingReq, in *mtp.Inner) bool {
 		e.sendGroup(p.conn, [][]byte{e.resultBody(p, wrapOpts{})}, []uint64{p.uid}, false)
 		return true
@@ -241,6 +258,7 @@ func c10reconnect(c *wk.Ctx, idx int, r *rand.Rand) {
 		conns := e.srv.Conns()
 		cn := conns[len(conns)-1]
 		before := atomic.LoadInt32(&reconnects)
+		atomic.AddInt64(&back, 4e9) // time synchronisation sets the clock back 4 s while the connection is down
 		cn.Close()
 		ok := false
 		for w := 0; w < 1000; w++ {
@@ -256,9 +274,14 @@ func c10reconnect(c *wk.Ctx, idx int, r *rand.Rand) {
 		}
 	}
 	e.quiesce(2 * time.Second)
-	checkOutgoing(c, idx, e, "reconnect", wallClock)
-	c.Count("c10.reconnect_histories", 1)
-	c.Distinct("reconnect", rounds, idx)
+	checkOutgoing(c, idx, e, "reconnect-"+mode, func() (int64, int64) {
+		if mode == "native" || mode == "coarse" {
+			return wallClock()
+		}
+		return base - 60e9, base + atomic.LoadInt64(&reads)*1e6 + 60e9
+	})
+	c.Count("c10.reconnect_histories."+mode, 1)
+	c.Distinct("reconnect", rounds, idx, mode)
 }
 
 // c10burst: reverse-release gate at send.id.
@@ -427,6 +450,12 @@ func c10acks(c *wk.Ctx, idx int, r *rand.Rand) {
 	}
 	cn := conns[len(conns)-1]
 	hist := ""
+	if idx%3 == 1 {
+		// an old, busy session: the server's seq_no is about to pass 2^31 (odd numbers with the top bit set follow)
+		cn.SetSeq(1<<30 - int32(1+r.Intn(3)))
+		hist = "seq_no-wrap "
+		c.Count("c10.histories_with_seq_no_wrap", 1)
+	}
 	nitems := 1 + r.Intn(6)
 	for i := 0; i < nitems; i++ {
 		var body []byte
